@@ -201,7 +201,16 @@ def compare_grammar(text):
     except ValueError as e:
         if expected_reject is None:
             return ('rejects-ll1-grammar', 'generate_grammar raised %s but the reference finds the grammar LL(1)' % short(str(e), 200)), info
-        return None, info
+        # generation is a function of the grammar text: a caller that catches the error and asks again gets the error again
+        try:
+            generate_grammar(text, PythonTokenTypes)
+        except ValueError:
+            return None, info
+        except RecursionError:
+            raise
+        except Exception as e2:
+            return crash_signature(e2), info
+        return ('accepts-non-ll1-grammar', 'reference: %s; generate_grammar rejected the text at the first call and accepted it at the second' % expected_reject), info
     except RecursionError:
         raise
     except Exception as e:
